@@ -84,8 +84,8 @@ def check(pid, tier, seed):
     mc = core.tlc_ok("MC_Lifecycle", os.path.join(core.SPEC, "MC_Lifecycle.cfg"), workers=4, timeout=600)
     if mc.violated:
         verdict.violation("C20:model", {"tlc": mc.out[-3000:]}, "TLC: lifecycle invariants violated in the model\n" + mc.out[-1500:])
-    r3, recs3, _ = tree_export(3, [2, 5], 12, ["bb"])
-    r2, recs2, _ = tree_export(2, [2, 5], 12, ["bb"])
+    r3, recs3, _ = tree_export(3, [3, 6], 12, ["bb"])
+    r2, recs2, _ = tree_export(2, [3, 6], 12, ["bb"])
     scen = layered_scenarios(rnd, recs3, recs2, 900 if tier == "quick" else 12000)
     cases = []
     meta = []
